@@ -20,11 +20,11 @@ def hostile_literal_frames(rng):
         # RLE literals, 3-byte header, no sequences
         blk = framegen.rle_literals_header(regen, 3) + b'\x41' + b'\x00'
         f = framegen.frame_header_bytes(window_log=10) + framegen.block_header(1, 2, len(blk)) + blk
-        out.append({'frame': f, 'content': None, 'cls': 'hostile-rle-literals-%d' % regen, 'producer': 'synthetic', 'oversized': True, 'params': {}})
+        out.append({'frame': f, 'content': None, 'cls': 'hostile-rle-literals-%d' % regen, 'producer': 'synthetic', 'oversized': True, 'over128k': True, 'params': {}})
         # raw literals announcing more than the block holds / more than 128 KiB
         blk = framegen.raw_literals_header(regen, 3) + rng.bytes(50) + b'\x00'
         f = framegen.frame_header_bytes(window_log=10) + framegen.block_header(1, 2, len(blk)) + blk
-        out.append({'frame': f, 'content': None, 'cls': 'hostile-raw-literals-%d' % regen, 'producer': 'synthetic', 'oversized': True, 'params': {}})
+        out.append({'frame': f, 'content': None, 'cls': 'hostile-raw-literals-%d' % regen, 'producer': 'synthetic', 'oversized': True, 'over128k': True, 'params': {}})
     return out
 
 
@@ -76,7 +76,7 @@ def run(chk):
                                   {'component': 'bounds', 'frame_hex': hexs(f['frame'])[:100000], 'program': ' '.join(toks), 'class': f['cls'],
                                    'how': 'echo "src=<frame_hex> <program>" | _build/cargo/release/zh prog'})
                 prev_len = held_max
-        if f.get('oversized') and 'B:err' not in t and nbad < 3:
+        if f.get('over128k') and 'B:err' not in t and nbad < 3:
             nbad += 1
             accepted_big += 1
             chk.violation('a block regenerating more than 128 KiB was accepted', {'component': 'bounds', 'frame_hex': hexs(f['frame'])[:100000], 'class': f['cls'], 'program': ' '.join(toks),
@@ -84,4 +84,4 @@ def run(chk):
     chk.add_samples('bounds', len(lines), len(set(lines)),
                     [{'class': progs[i][0]['cls'], 'budget': progs[i][1], 'frame_bytes': len(progs[i][0]['frame'])} for i in (0, len(progs) // 2, len(progs) - 1)],
                     rule='hostile frames (literal sections announcing up to 2^20-1 bytes; sequence blocks with maximum-length matches beyond 128 KiB) and ordinary multi-block frames, decoded stepwise with byte/block budgets; distinct = distinct (frame, budget)')
-    chk.cov['components']['bounds'].update({'oversized_blocks_refused': rejected, 'oversized_frames': sum(1 for f in frames if f.get('oversized'))})
+    chk.cov['components']['bounds'].update({'oversized_blocks_refused': rejected, 'oversized_frames': sum(1 for f in frames if f.get('over128k'))})
